@@ -107,3 +107,52 @@ def kw(call, name):
         if k.arg == name:
             return k.value
     return None
+
+
+# ----------------------------------------------------------------- bit-vector mode ---
+def tr_bv(node, env, w=64):
+    """translate an integer expression over w-bit bit-vectors (callers bound the inputs so nothing wraps)"""
+    if isinstance(node, ast.Constant) and isinstance(node.value, int) and not isinstance(node.value, bool):
+        return z3.BitVecVal(node.value, w)
+    if isinstance(node, ast.Name):
+        if node.id in env:
+            return env[node.id]
+        raise Untranslatable("free name %s" % node.id)
+    if isinstance(node, ast.Call):
+        key = "call:" + ast.unparse(node.func)
+        if key in env:
+            return env[key]
+        raise Untranslatable("call " + ast.unparse(node)[:60])
+    if isinstance(node, ast.BinOp):
+        a, b = tr_bv(node.left, env, w), tr_bv(node.right, env, w)
+        op = type(node.op)
+        if op is ast.Add:
+            return a + b
+        if op is ast.Sub:
+            return a - b
+        if op is ast.Mult:
+            return a * b
+        if op is ast.FloorDiv:
+            return z3.UDiv(a, b)          # operands are non-negative in the lemmas that use this mode
+        if op is ast.Mod:
+            return z3.URem(a, b)
+        if op is ast.LShift:
+            return a << b
+        if op is ast.RShift:
+            return z3.LShR(a, b)
+        if op is ast.BitOr:
+            return a | b
+        if op is ast.BitAnd:
+            return a & b
+        if op is ast.BitXor:
+            return a ^ b
+    raise Untranslatable(ast.dump(node)[:120])
+
+
+def find_assign(tree, name):
+    out = []
+    for n in ast.walk(tree):
+        if isinstance(n, ast.Assign) and len(n.targets) == 1 and isinstance(n.targets[0], ast.Name) \
+                and n.targets[0].id == name:
+            out.append(n.value)
+    return out
